@@ -438,8 +438,29 @@ EvalNodes(nodes, x) ==
            b == EvalNodes(Tail(nodes), a.v)
        IN  R(b.v, a.calls \o b.calls)
 
-\* the documented value of the chain on an input: evaluate, then drain iterators
-Eval(c, x) == Drain(EvalNodes(Desugar(c.items), x))
+\* C11: an operand written as a {..} block is evaluated once, at the start of the step it belongs to,
+\* before any other expression of that step, in position order (both operands of fold / try_fold).
+CapCalls(items, lo, hi) ==
+  LET RECURSIVE Go(_)
+      Go(i) == IF i > hi THEN <<>>
+               ELSE (CASE items[i].shape = "block"  -> <<[site |-> i, cb |-> "cap", arg |-> I(IF items[i].op \in {"fold", "try_fold"} THEN 1 ELSE 0)]>>
+                       [] items[i].shape = "block2" -> <<[site |-> i, cb |-> "cap", arg |-> I(0)], [site |-> i, cb |-> "cap", arg |-> I(1)]>>
+                       [] OTHER -> <<>>) \o Go(i + 1)
+  IN  Go(lo)
+\* first flat index of the step after the one that starts at top-level node k
+NextStepSite(items, nodes, k) ==
+  LET later == {q \in (k + 1) .. Len(nodes) : items[nodes[q].site].deferred} IN
+  IF later = {} THEN Len(items) + 1 ELSE nodes[CHOOSE q \in later : \A p \in later : q <= p].site
+RECURSIVE EvalSteps(_, _, _, _)
+EvalSteps(items, nodes, k, r) ==     \* r = [v, calls] so far
+  IF k > Len(nodes) THEN r
+  ELSE LET starts == k = 1 \/ items[nodes[k].site].deferred
+           caps == IF starts THEN CapCalls(items, IF k = 1 THEN 1 ELSE nodes[k].site, NextStepSite(items, nodes, k) - 1) ELSE <<>>
+           a == Apply1(nodes[k], r.v)
+       IN  EvalSteps(items, nodes, k + 1, R(a.v, r.calls \o caps \o a.calls))
+
+\* the documented value of the chain on an input: evaluate step by step, then drain iterators
+Eval(c, x) == Drain(EvalSteps(c.items, Desugar(c.items), 1, R(x, <<>>)))
 
 ---------------------------------------------------------------------------
 \* inputs per start type
@@ -478,6 +499,12 @@ Alphabet ==
   CASE Family = "plain" -> PlainItems
     [] Family = "shapes" -> {Shaped(it, sh) : it \in {p \in PlainItems : p.op \in ShapeOps /\ p.arg \notin {"idt", "nop"}}, sh \in Shapes}
                             \cup {It("collect", ""), It("dot", "count"), It("map", "inc")}
+    \* C11: block operands on every operator that takes an expression operand, in every step, inside wrappers
+    [] Family = "caps" ->
+         LET base == {p \in PlainItems : (p.op \in ShapeOps /\ p.arg \notin {"idt", "nop"}) \/ p.op \in {"or", "chain", "zip"}}
+             blk == {Shaped(it, "block") : it \in base} \cup {Shaped(it, "block2") : it \in {p \in base : p.op \in {"fold", "try_fold"}}}
+         IN  blk \cup {Def(it) : it \in blk} \cup {It("map", "inc"), It("dot", "into_iter"), It("collect", ""), Def(It("inspect", "nop"))}
+             \cup {Wrap(op) : op \in {"map", "and_then", "filter_map"}} \cup {Unwrap}
     [] Family = "wrap"  -> SmallItems \cup WrapItems \cup {Def(it) : it \in {It("map", "inc"), It("inspect", "nop"), It("dot", "is_some")}}
 
 Init == chain \in {[start |-> t, items |-> <<>>] : t \in StartTypes}
